@@ -72,7 +72,12 @@ def candidates(step):
     import numpy as np
     if step["u"] == "matmul":
         return [np.matmul]
-    if step["m"] in ("reduce", "accumulate", "reduceat", "outer"):
+    if step["m"] in ("reduce", "accumulate", "reduceat"):
+        # ufuncs NumPy can reduce on most dtypes (comparisons, ldexp, ... cannot be reduced on plain arrays either)
+        good = ("add", "multiply", "maximum", "minimum", "fmax", "fmin", "logaddexp", "hypot", "logical_and",
+                "logical_or", "logical_xor", "bitwise_and", "bitwise_or", "bitwise_xor", "subtract", "divide", "power")
+        return [f for f in ur.BY_KIND[(2, 1)] if f.__name__ in good]
+    if step["m"] == "outer":
         return ur.BY_KIND[(2, 1)]
     return ur.BY_KIND[ur.KIND_OF_U[step["u"]]]
 
@@ -87,6 +92,16 @@ def attempt(heap0, recs, seed, back, uf_name=None, dtypes=None, form=None, tries
     byname = {f.__name__: f for f in cands}
     out_idx = [o - 1 for o in step["outs"] if o]
     last = None
+    if step["u"] == "matmul" and step["m"] != "call":
+        o = ur.Outcome()
+        o.skip = "gufunc without this method"
+        return o, {}
+    if step["nout"] == 2 and any(heap0[i - 1] in ("BasebandSignal", "DualPolarizationSignal") for i in step["ins"]):
+        o = ur.Outcome()
+        o.skip = "no two-output ufunc accepts complex input"
+        return o, {}
+    if len(cands) <= 2:
+        tries = min(tries, 2)
     for t in range(tries):
         uf = byname[uf_name] if uf_name else rnd.choice(cands)
         w = ur.build_world(heap0, rnd, back, out_idx=out_idx, dtypes={int(k): v for k, v in (dtypes or {}).items()},
@@ -121,13 +136,15 @@ def arrangement_sweep(chk, groups, rnd, limit, stats, deadline):
     """every generated arrangement (or a stratified sample) with seeded ufuncs / dtypes / backings"""
     keys = sorted(groups)
     if len(keys) > limit:
+        # stratified by calling form so that rare forms are not drowned
         by = {}
         for k in keys:
-            by.setdefault((k[1], k[2], len(k[0])), []).append(k)
-        per = max(1, limit // len(by))
+            by.setdefault((k[1], k[2]), []).append(k)
+        total = len(keys)
         keys = []
         for b in sorted(by):
-            keys += by[b] if len(by[b]) <= per else rnd.sample(by[b], per)
+            want = max(60, (limit * len(by[b])) // total)
+            keys += by[b] if len(by[b]) <= want else rnd.sample(by[b], want)
     rnd.shuffle(keys)
     hit = set()
     ncov = {}
@@ -173,10 +190,11 @@ STD = {  # standard arrangements of the per-ufunc sweep: (heap0 with C = class u
 UNAME = {(1, 1): "neg", (2, 1): "add", (1, 2): "modf", (2, 2): "divmod"}
 
 
-def ufunc_sweep(chk, groups, rnd, per_combo, stats, deadline, backs):
+def ufunc_sweep(chk, groups, rnd, per_combo, stats, deadline, backs, dask_share=1.0):
     """all of NumPy's ufuncs x every class x dtypes of the class x backings"""
     import ufunc_replay as ur
-    menu = {"Signal": ["float64", "float32", "complex128", "complex64", "int64", "int32", "uint8", "bool", "float16", "longdouble"],
+    menu = {"Signal": ["float64", "float32", "complex128", "complex64", "int64", "int32", "uint8", "bool", "float16", "longdouble",
+                       "U4", "datetime64[s]"],
             "RadioSignal": ["float64", "complex64", "int64", "bool", "float32", "uint8"]}
     valid, tried = {}, 0
     combos = []
@@ -184,11 +202,24 @@ def ufunc_sweep(chk, groups, rnd, per_combo, stats, deadline, backs):
         for cls in ur.SIG:
             for dt in menu.get(cls) or ur.REQ[cls]:
                 for back in backs:
-                    if back == "dask" and dt in ("float16", "longdouble"):
+                    if back == "dask" and (dt in ("float16", "longdouble", "U4", "datetime64[s]") or rnd.random() > dask_share):
                         continue
                     combos.append((uf, cls, dt, back))
     rnd.shuffle(combos)
+    import numpy as np
+    dead = {}
     for n, (uf, cls, dt, back) in enumerate(combos):
+        # "skip those that raise on the raw arrays for that dtype" (one probe per ufunc and dtype)
+        if (uf, dt) not in dead:
+            try:
+                with np.errstate(all="ignore"):
+                    uf(*[np.ones(2, dtype=dt)] * uf.nin)
+                dead[(uf, dt)] = False
+            except Exception:
+                dead[(uf, dt)] = True
+        if dead[(uf, dt)]:
+            stats["ufunc_dtype_combinations_invalid_on_raw"] = stats.get("ufunc_dtype_combinations_invalid_on_raw", 0) + 1
+            continue
         if time.time() > deadline:
             stats["ufunc_sweep_truncated_at"] = "%d of %d" % (n, len(combos))
             break
@@ -399,7 +430,7 @@ def run(chk):
     asarray_sweep(chk, asarr, rnd, stats, thorough)
     qty_eq_sweep(chk, qeq, rnd, stats, 6 if thorough else 2)
     ufunc_sweep(chk, groups, rnd, 99 if thorough else 2, stats, time.time() + share * (0.45 if thorough else 0.42),
-                ("np", "dask") if thorough else ("np", "np", "dask"))
+                ("np", "dask"), 1.0 if thorough else 0.15)
     arrangement_sweep(chk, groups, rnd, 10 ** 9 if thorough else 4000, stats, time.time() + share * (0.35 if thorough else 0.3))
     chain_sweep(chk, chains, rnd, 6000 if thorough else 700, stats, end)
     trace_part(chk, rnd, stats, thorough)
